@@ -165,3 +165,16 @@ Example C18_rules_examples :
   /\ encode (fun c => if ceq c c_pct then [c_bs; c] else [c]) true true u
      = url_open ++ firstn 16 u ++ [c_rb] ++ skipn 16 u.
 Proof. vm_compute. split; reflexivity. Qed.
+
+(* the constructors of the two middlewares: a custom converter together with one of the two switches is refused (ValueError),
+   nothing else is; a switch that is not given takes its default (keep_math, enclose_urls: on; keep_braced_groups: off;
+   keep_math_mode: on).  The harness checks the real constructors against this on every option combination (stream options). *)
+Theorem C18_constructor_options : forall custom a b da db,
+  (resolve_options custom a b da db = None <-> custom = true /\ (a <> None \/ b <> None))
+  /\ resolve_options false None None da db = Some (false, da, db)
+  /\ encoder_options false None None = Some (false, true, true)
+  /\ decoder_options false None None = Some (false, false, true).
+Proof.
+  intros. split; [apply resolve_options_refuses|]. repeat split.
+Qed.
+Print Assumptions C18_constructor_options.
